@@ -5,6 +5,7 @@ every frame list, payload, fragmentation, framer parameter, byte string.
 -/
 import Compio.Lemmas.Frame
 import Compio.Lemmas.Cmsg
+import Compio.Lemmas.CmsgRoundtrip
 
 namespace Compio.Props.C13
 open Compio Compio.Frame
@@ -385,6 +386,42 @@ theorem cmsg_decode_within_message (buf : Bytes) (off n : Nat) (bs : Bytes)
     simp [cmsgLen] at hlt ⊢
     omega
 
+open Compio.Cmsg in
+/-- **Builder / iterator round trip.** Push any list of well-formed messages into a fresh builder of
+any capacity: the bytes handed to the kernel are exactly the accepted messages laid out one after the
+other; iterating them yields exactly the accepted messages (level, type, length) in order; decoding
+each yields exactly its payload. -/
+theorem cmsg_builder_iter_roundtrip (cap : Nat) (b : Builder) (hnew : Builder.new cap = .ok b)
+    (msgs : List Msg) (hwf : ∀ m ∈ msgs, m.wf) :
+    let acc := accepted msgs (b.pushAll msgs).2
+    (b.pushAll msgs).1.finish = flat acc ∧
+    (acc ≠ [] → iter (b.pushAll msgs).1.finish = .msgs (hdrsFrom 0 acc)) ∧
+    decodeAll (b.pushAll msgs).1.finish 0 acc = acc.map (fun m => Decoded.ok m.2.2) := by
+  intro acc
+  have hinv := pushAll_inv msgs b [] (binv_new cap b hnew) hwf
+  simp only [List.nil_append] at hinv
+  have hfin := finish_eq _ _ hinv
+  have hacc : ∀ m ∈ acc, m.wf := fun m hm => hwf m (accepted_subset msgs _ m hm)
+  refine ⟨hfin, ?_, ?_⟩
+  · intro hne
+    rw [hfin]
+    exact iter_flat acc hacc hne
+  · rw [hfin]
+    simpa using decodeAll_flat acc [] hacc
+
+open Compio.Cmsg in
+/-- a list whose total `CMSG_SPACE` fits the buffer is accepted completely ("any list that fits") -/
+theorem cmsg_all_that_fit_are_accepted (cap : Nat) (b : Builder) (hnew : Builder.new cap = .ok b)
+    (msgs : List Msg) (hwf : ∀ m ∈ msgs, m.wf) (hfit : (flat msgs).length ≤ cap) :
+    accepted msgs (b.pushAll msgs).2 = msgs := by
+  have hb := binv_new cap b hnew
+  have hcap : b.cap = cap := by
+    unfold Builder.new at hnew
+    split at hnew
+    · simp at hnew
+    · simp at hnew; subst hnew; rfl
+  exact pushAll_all_ok msgs b [] hb hwf (by simp [flat, hcap] at *; exact hfit)
+
 /-! ## 5. Non-vacuity: the hypotheses above are met by concrete, non-trivial data -/
 
 example : ldWf ⟨2, true⟩ [1, 2, 3] := by unfold ldWf usizeLimit; simp
@@ -392,5 +429,7 @@ example : anyWf [10] [97, 98] := by unfold anyWf; decide
 example : runAll (LD.extract ⟨1, false⟩) 3 RState.init
     ([[2, 97], [98, 0]].map Frag.data) = [.item [97, 98], .item [], .done] := by decide
 example : (LD.extract ⟨8, true⟩ [255, 255, 255, 255, 255, 255, 255, 255, 1]) = .err := by decide
+example : Compio.Cmsg.Msg.wf ([1, 0, 0, 0], [2, 0, 0, 0], [7, 9]) := by
+  unfold Compio.Cmsg.Msg.wf Compio.Cmsg.cmsgLen Compio.Cmsg.hdr; simp
 
 end Compio.Props.C13
